@@ -321,6 +321,9 @@ class ResponseHandler(BaseProtocol, DataQueue[tuple[RawResponseMessage, StreamRe
     def data_received(self, data: bytes) -> None:
         # If no data, then we are resuming decompression. We haven't received
         # data from the socket, so we can avoid the reschedule overhead.
+        # (before an interim response the timer runs only if the request has
+        # been sent completely, e.g. not while the body waits for 100 Continue)
+        awaiting_response = self._read_timeout_handle is not None
         if data:
             self._reschedule_timeout()
 
@@ -419,7 +422,7 @@ class ResponseHandler(BaseProtocol, DataQueue[tuple[RawResponseMessage, StreamRe
             # EMPTY_PAYLOAD
             if payload is not EMPTY_PAYLOAD:
                 payload.on_eof(self._drop_timeout)
-            elif self._final_response_seen:
+            elif self._final_response_seen or not awaiting_response:
                 self._drop_timeout()
             # (after an interim response the final one is still awaited)
 
